@@ -215,6 +215,9 @@ func genHistory(seed int64, i int) *History {
 	r := fw.Rand(seed, "c11", i)
 	h := &History{Index: i}
 	h.Kind = []string{"passive", "passive", "retry", "retry-recover", "active", "limit", "limit", "passive-reload", "limit-multipeer"}[i%9]
+	if i%18 == 13 {
+		h.Kind = "overlap"
+	}
 	h.D = 300 + r.Intn(7)*100
 	h.M = 1 + r.Intn(3)
 	h.T = 500 + r.Intn(8)*100
@@ -268,6 +271,8 @@ func run(c *fw.Ctx) {
 					passiveReload(c, canary, h)
 				case "limit-multipeer":
 					limitMultiPeer(c, canary, h)
+				case "overlap":
+					overlap(c, canary, h)
 				}
 			}(h)
 		}
@@ -697,6 +702,8 @@ func replay(c *fw.Ctx, raw json.RawMessage) {
 		passiveReload(c, canary, h)
 	case "limit-multipeer":
 		limitMultiPeer(c, canary, h)
+	case "overlap":
+		overlap(c, canary, h)
 	}
 }
 
